@@ -22,7 +22,8 @@ def make_case(rng, multi):
     if not src.endswith('\n') and rng.random() < 0.7:
         src += '\n'
     words = [w for w in re.findall(r'Q[a-z]+', src)]
-    uniq = [w for w in words if words.count(w) == 1]
+    visible = {w['w'] for w in c['words'] if w['role'] in ('copy', 'detached')} | {'Qzza', 'Qzzb', 'Qzzc', 'Qzzd', 'Qzze', 'Qzzf', 'Qzzg'}
+    uniq = [w for w in words if words.count(w) == 1 and w in visible]      # a word inside vanishing markup cannot be flagged
     # some flagged words contain non-ASCII letters themselves (byte columns of xml-b differ from character columns inside the word)
     for w in uniq[:]:
         if rng.random() < 0.25 and re.search(re.escape(w) + r'(?![a-z])', src):
